@@ -186,7 +186,9 @@ class DefExpandGatherer:
 
         try:
             if these_defs.validate():
-                new_contents = these_defs.get_group()
+                # Parse the resolved contents afresh: the tags of get_group() are modified copies of the first
+                # instance's tags and still carry its source text, which tag comparison and placeholder lookup consult.
+                new_contents = HedString(str(these_defs.get_group()), self.hed_schema).get_first_group()
                 self.def_dict.defs[def_tag_name.casefold()] = DefinitionEntry(name=def_tag_name, contents=new_contents,
                                                                               takes_value=True,
                                                                               source_context=[])
